@@ -49,20 +49,16 @@ def main():
         meta["ran"].append({"cmd": f"demo with change", "exit": rc1, "tail": o1[-400:]})
         ok = base == mut and len(base) >= 42 and rc0 == 0 and rc1 != 0
         meta["confirmed"] = ok
-    finally:
-        sh(f"git -C /repo worktree remove --force {wt}")
-        shutil.rmtree(wt, ignore_errors=True)
-    # run our checks against /repo with the patch applied
-    det = {}
-    rc, out = sh(f"git -C /repo apply {patch}")
-    assert rc == 0, out
-    try:
+        # run our quick checks against the worktree WITH the change (VERIF_REPO points the checks at it; /repo untouched)
+        det = {}
+        env2 = dict(os.environ, VERIF_REPO=wt)
         for p in checks:
-            rc, out = sh(f"./check {p} --tier quick", cwd=VERIF)
+            rc, out = sh(f"./check {p} --tier quick", cwd=VERIF, env=env2)
             vio = [l[:300] for l in out.splitlines() if l.startswith("VIOLATION")]
             det[p] = {"exit": rc, "violations": vio[:3]}
     finally:
-        sh("git -C /repo checkout -- .")
+        sh(f"git -C /repo worktree remove --force {wt}")
+        shutil.rmtree(wt, ignore_errors=True)
     meta["detected_by_quick_checks"] = det
     d = os.path.join(VERIF, "seeded", f"{prop}-{label}")
     os.makedirs(d, exist_ok=True)
